@@ -375,3 +375,37 @@ Proof.
   split; [reflexivity|]. intros fr e k H. unfold client_reads_again, body_again.
   destruct fr; try reflexivity. exfalso. now apply (H n).
 Qed.
+
+(* ====================================================================== *)
+(* EOF from the connection; interim heads per response                    *)
+(* ====================================================================== *)
+
+(* a connection that has reported EOF - in whatever Read, with or without data - is never
+   offered for reuse; otherwise the decision is the one proved above *)
+Theorem eof_never_reused cv : conn_reusable true cv = false /\ conn_reusable false cv = cv_reusable cv.
+Proof. split; reflexivity. Qed.
+
+(* every exchange counts its interim heads from zero *)
+Theorem exchange_counts_from_zero m seg : exchange m [] seg = exchange_from 0 m seg.
+Proof. reflexivity. Qed.
+
+(* one step of the loop: a skippable interim head below the bound costs one count *)
+Theorem read_final_skip_step f meth n s r rest :
+  read_response_head meth conn_bufsize s = inr (r, rest) ->
+  is_1xx_nonterminal (r_code r) = true -> n < max_1xx_responses ->
+  read_final (S f) meth n s = read_final f meth (S n) rest.
+Proof.
+  intros H H1 Hn. cbn [read_final]. rewrite H, H1.
+  destruct (Nat.ltb_spec max_1xx_responses (S n)); [lia|reflexivity].
+Qed.
+
+(* a count carried over from earlier exchanges on the connection (seeded g-m2) refuses a
+   response with two hints that every exchange counting from zero accepts *)
+Definition hints2_demo : bytes :=
+  bs "HTTP/1.1 103 Early Hints" ++ [CR; LF; CR; LF] ++ bs "HTTP/1.1 102 Processing" ++ [CR; LF; CR; LF] ++
+  bs "HTTP/1.1 200 OK" ++ [CR; LF] ++ bs "Content-Length: 2" ++ [CR; LF; CR; LF] ++ bs "hi".
+
+Theorem carried_interim_count_refuted :
+  exchange_from 4 (bs "GET") hints2_demo = None /\
+  option_map (fun rb => b_data (snd rb)) (exchange_from 0 (bs "GET") hints2_demo) = Some (bs "hi").
+Proof. vm_compute. split; reflexivity. Qed.
